@@ -52,12 +52,12 @@ CHECKS = {
         note='Trusted: Lean kernel, harness, partfiles.py, asdf (validate_on_read off), astropy Table; values go through the C04/C15 model decoders (floats compared under their bounds).',
         design='§7 C16'),
     'C12': dict(
-        technique='Lean 4 proof over named parallel arrays (stable argsort is a permutation; gathering every column by one index list equals a record-wise permutation; searchsorted spec) + an ast translator regenerating the returned/permuted/allocated/filled array tables of AbacusHOD.staging + differential run and id-decoding oracle of the real AbacusHOD on synthetic subsample file sets',
+        technique='Lean 4 proof over named parallel arrays (stable argsort is a permutation; gathering every column by one index list equals a record-wise permutation; searchsorted spec) + a dynamic extractor that observes, on every run and for every flag subset, which returned array carries which dataset expression in which row order by running the real AbacusHOD.staging on injectively tagged probe files (Generated/StagingCols.lean), backed by an optional ast reader of the source + differential run and id-decoding oracle of the real AbacusHOD on synthetic subsample file sets',
         text='staging_rows_aligned / sort_rows_aligned / ids_sorted / pinds_points_to_host / already_sorted_noop / argsort_is_perm hold for every flag set, slab count, slab content and id order '
-             'on a Lean model whose sort block permutes exactly the arrays listed in tables regenerated from the source on every run; returned_cols_permuted (decide over those tables) fails when a '
-             'returned array lacks its X = X[sortind] statement. The model is tied to /repo by running it and the real constructor/staging on exhaustive small id arrangements plus seeded random '
+             'on a Lean model whose sort block permutes exactly the arrays listed in tables regenerated from /repo on every run (observed from the running code per flag subset; observed_complete, ast_agrees_with_observed); returned_cols_permuted (decide over those tables) fails when a '
+             'returned array is not delivered in id order under some flag subset. The model is tied to /repo by running it and the real constructor/staging on exhaustive small id arrangements plus seeded random '
              'file sets (1-4 slabs, chunking, all flags, MT naming, secondary/lightcone, 1-D deviates), compared exactly; an oracle decoding every attribute of every row back to its halo id decides violations. Extended: the per-slab fill loop is modelled as coded (preallocated arrays, slice writes at a ticker) with fill_is_concat(_cols); the field-to-array source expressions are regenerated from the source and proved single and as documented (returned_cols_single_source, part_cols_single_source, sources_as_documented, eval_rowwise); stable-argsort statements for duplicate ids (argsort_stable, pinds_first_occurrence).',
-        note='Trusted: Lean kernel (+propext, Classical.choice, Quot.sound); harness/stagegen.py encodings and the documented field-to-array mapping; the ast translator; h5py/asdf; numpy argsort/searchsorted/fancy indexing modelled by specification; duplicate-free ids only.',
+        note='Trusted: Lean kernel (+propext, Classical.choice, Quot.sound); harness/stagegen.py encodings and the documented field-to-array mapping; the dynamic extractor (finite expression grammar: column, a/b, a*param, 1/a/b, column-or-zeros, ones; anything else is reported as a tie) and the optional ast reader (unavailable = recorded, no verdict); h5py/asdf; numpy argsort/searchsorted/fancy indexing modelled by specification; duplicate-free ids only.',
         design='§7 C12'),
     'C04': dict(
         technique='Lean 4 proofs (BitVec/Nat div-mod lemmas, omega; rhe_close for the round trip) over a model whose constants are regenerated from the imported module + differential run of the compiled model driver against unpack_rvint/unpack_pids/_unpack_rvint/_unpack_pids (compiled and py_func) + integer-layout oracle; thorough: all 2^32 RVint words',
@@ -66,7 +66,7 @@ CHECKS = {
              'Box/positions/velocities, all input lengths and all output selections, on a model of bitpacked.py stated over Generated/BitConsts.lean, which is re-extracted from /repo on every run '
              '(module constants plus kernel literals solved from py_func on basis words), so a changed constant breaks a proof. The model is tied to the real code by sweeps over every value of every bit field x random other bits, '
              'all posout/velout modes, all 32 pid-output subsets, float32/float64, dyadic and non-dyadic Box/ppd: integers, velocities, densities exact; positions within 2 ulp; Lagrangian positions within 3 ulp of max(j*Box/ppd, Box/2). '
-             'Thorough decodes all 2^32 words with the compiled kernel, compares with the model tables T_pos/T_vel and checks field independence of the implementation bitwise.',
+             'Thorough decodes all 2^32 words with the compiled kernel, compares with the model tables T_pos/T_vel and checks field independence of the implementation bitwise. Through the reader: the pos/vel/pid/lagr_pos/lagr_idx/tagged/density columns CompaSOHaloCatalog delivers (cleaned on/off, A/B, unpack_bits variants, header ppd spelled exactly or as NP**(1/3) a hair off the integer) are compared with the documented decoding of the raw words the same load returns in passthrough mode.',
         note='Trusted: Lean kernel (+propext, Classical.choice, Quot.sound), translator and harness, numba int32->int64 promotion as modelled; float rounding of the final scale multiply bounded, not modelled. '
              'Unclaimed observation (not reachable through the public constructor, which forces unpack_bits=False for light cones): _load_halo_lc_subsamples(unpack_bits=True) raises TypeError.',
         design='§7 C04'),
